@@ -247,10 +247,16 @@ def hand_shapes():
     from codelimit.common.token_matching.predicate.Balanced import Balanced
     from codelimit.common.token_matching.predicate.Keyword import Keyword
     from codelimit.common.token_matching.predicate.Name import Name
+    from codelimit.common.token_matching.predicate.And import And
+    from codelimit.common.token_matching.predicate.Not import Not
+    from codelimit.common.token_matching.predicate.Or import Or
 
     return {
         "groups-only": (lambda: [OneOrMore(Balanced("(", ")"))], None),
         "name-groups": (lambda: [Name(), OneOrMore(Balanced("(", ")"))], []),
+        # the stateful predicate inside a combinator (same language over this alphabet: the other operand never decides)
+        "name-groups-in-and": (lambda: [Name(), OneOrMore(And(Balanced("(", ")"), Not("\u00a7never")))], []),
+        "name-groups-in-or": (lambda: [Name(), OneOrMore(Or(Balanced("(", ")"), "\u00a7never"))], []),
         "def-name-groups": (lambda: [Keyword("def"), Name(), OneOrMore(Balanced("(", ")"))], [("req", "kw:def")]),
         "function?-name-groups": (lambda: [Optional(Keyword("function")), Name(), OneOrMore(Balanced("(", ")"))], [("opt", "kw:function")]),
     }
@@ -259,6 +265,8 @@ def hand_shapes():
 HAND_ALPHABET = {
     "groups-only": ["id", "p:(", "p:)", "op:+"],
     "name-groups": ["id", "p:(", "p:)", "p:{", "kw:if", "op:+"],
+    "name-groups-in-and": ["id", "p:(", "p:)", "p:{", "op:+"],
+    "name-groups-in-or": ["id", "p:(", "p:)", "p:{", "op:+"],
     "def-name-groups": ["id", "p:(", "p:)", "kw:def", "kw:if", "op:+"],
     "function?-name-groups": ["id", "p:(", "p:)", "p:{", "kw:function", "op:+"],
 }
